@@ -680,7 +680,7 @@ def main(argv=None):
     ck = Check('C15', argv)
     ck.extra['modules'] = ['Props.C15', 'Drivers.Mvcc']
     ck.run_gate(ck.extra['modules'], ['Props.C15'])
-    ncases = 1000 if ck.thorough else 60
+    ncases = 3000 if ck.thorough else 100
     cases = []
     corpus_dir = os.path.join(os.path.dirname(os.path.dirname(os.path.abspath(__file__))), 'corpus', 'C15')
     if ck.replay_path:
